@@ -19,5 +19,5 @@ package bigint
 //@ func FromBytes
 //@ assumed
 //@ pure
-//@ requires data != nil
+//@ requires[nonnil] data != nil
 //@ ensures result != nil
